@@ -88,5 +88,9 @@ R.model("Message", dynamic={
 def _class_defines_attr(ex, st, obj, attr):
     """`attr` is one of the attr_names in the avp_def of obj's class (DefinedMessage.__getattr__ then returns
     None instead of raising).  Uninterpreted per (class, name); ground obligations enumerate the real tables."""
+    from pyvc.smt import FALSE
+    ci = ex.try_cls(obj.cls)
+    if ci is None or not any(c.name == "Message" for c in ci.mro()):
+        return VBool(FALSE)          # only DefinedMessage has a __getattr__ fallback
     ex.decls.fun("defines_attr", [INT, STR], BOOL)
     return VBool(app("defines_attr", BOOL, ex.type_of(st, obj.t), ex.decls.str_lit(attr)))
